@@ -6,18 +6,32 @@
      C06_no_conflict_partial   (model-level: a pending WriteAt and a concurrent read of the same
                                 file never touch the same entry; PARTIAL by nature: a Rocq model
                                 has no Go memory model -- the race detector runs on the harness)
-   NOT proved (statements: Readers.reads_linearizable_statement,
-   Readers.stable_entry_intact_statement); evidence is the sched06 stream: the model and
-   the implementation agree on every forced schedule, every read of every forced and
-   free-running history is checked by the Go history checker (the mirror of
-   Readers.lin_check), and `Readers.lin_check` evaluates to true on the Examples below:
-     C06_reads_linearizable, C06_stable_entry_intact.
-   What is missing for them: the refcount/finalizer/ownership invariant (a validated
-   holder of state x keeps the finalizers of all states >= x from running) and the
-   argument that a value read through a retired state object was current at the
-   time the commitIdx it depends on was published. *)
+   Proved for every program list with a single writer thread (any number of readers, Close
+   callers, stable-store callers) and every schedule:
+     C06_stable_entry_intact   no read ever goes through a closed or deleted file: IOErr is never
+                               recorded (from the handle-ownership invariant CloseInv2.Inv2)
+     C06_reads_linearizable    every completed FirstIndex / LastIndex / GetLog: its result is the
+                               result the abstract log (the current version) gives in some state
+                               between the read's invocation (the step that loads the closed
+                               flag) and its return; a read overlapping Close may instead return
+                               ErrClosed once Close has set the closed flag.
+   Proof of the latter (Conc/Read*.v): the structural invariant ReadInv.Inv3 of the version
+   sequence (handle ids grow with the versions, the tail has the largest base, a version that
+   keeps its predecessor's tail keeps a suffix of its file list and does not lower the first
+   index, first index <= base + commitIdx of the tail); `view g x o` = what a reader holding
+   version x computes; ReadStable.view_step: a step changes the view through x only when the
+   writer stores commitIdx of a tail that x shares with the current version, and then the
+   new view equals the view through the current version (ReadView.commit_view); file
+   contents are append-only below the committed prefix (ReadFrame.ents_step); hence every
+   in-flight read carries a justification that survives every step (ReadLin.claim_other /
+   claim_own), and an induction along the schedule (ReadLin2.events_lin) discharges every
+   event of Readers.events.
+   The statement was corrected in this round: with the former clause `spec_read = ErrClosed`
+   a read that starts after Close set the flag and before Close swapped the state object
+   had no linearization point (Example C06_ex_close_window).
+   Not in the model: base-index resets (implementation-only cases of the sched06 stream). *)
 From Coq Require Import List Arith Bool.
-From RW Require Import Conc.Sys Conc.Close Conc.CloseSafe Conc.CloseThm Conc.Readers.
+From RW Require Import Conc.Sys Conc.Close Conc.CloseSafe Conc.CloseReach Conc.CloseThm Conc.CloseThm2 Conc.Readers Conc.ReadLin2.
 Import ListNotations.
 
 Theorem C06_visible_only_durable : forall progs extra s,
@@ -40,6 +54,23 @@ Theorem C06_no_conflict_partial : forall progs extra s,
 Proof. exact no_conflict_file. Qed.
 Print Assumptions C06_no_conflict_partial.
 
+Theorem C06_stable_entry_intact : forall w progs extra sch t th,
+  single_writer w progs extra ->
+  nth_error (ths (run step (init progs extra) sch)) t = Some th -> ~ In IOErr (t_outs th).
+Proof. exact stable_entry_intact. Qed.
+Print Assumptions C06_stable_entry_intact.
+
+Theorem C06_reads_linearizable : forall w progs extra sch e,
+  single_writer w progs extra ->
+  In e (events (init progs extra) sch) -> lin_read (states_along (init progs extra) sch) e.
+Proof. exact reads_linearizable. Qed.
+Print Assumptions C06_reads_linearizable.
+
+(* the statements as formulated in Conc/Readers.v *)
+Theorem C06_statements : reads_linearizable_statement /\ stable_entry_intact_statement.
+Proof. exact readers_statements. Qed.
+Print Assumptions C06_statements.
+
 (* ---- Examples: the per-read checker on concrete schedules ---------------------------- *)
 (* writer: append 1,2 (tag 1), tail truncation to 1, re-append 2,3 with tag 7, head truncation;
    reader 1 sees entry 2 with tag 1 before and tag 7 after the re-append *)
@@ -48,8 +79,23 @@ Definition ex_cfg : list (list op) := [ex_w; [OGet 2; OLast; OGet 2]; [OFirst; O
 Fixpoint rr (n : nat) : list tid := match n with O => [] | S k => [1; 0; 2; 0; 3; 0] ++ rr k end.
 Example C06_ex_lin : lin_check (init ex_cfg []) (rr 40) = true.
 Proof. vm_compute. reflexivity. Qed.
+(* the schedule above contains six completed reads (non-vacuity of C06_reads_linearizable) *)
+Example C06_ex_events :
+  map (fun e => (r_tid e, r_op e, r_res e)) (events (init ex_cfg []) (rr 40)) =
+  [(2, OFirst, Ok 1); (1, OGet 2, Ok 1); (1, OLast, Ok 1); (2, OGet 1, Ok 1); (1, OGet 2, Ok 7); (2, OGet 3, Ok 7)].
+Proof. vm_compute. reflexivity. Qed.
 Example C06_ex_reads :
   let s := run step (init ex_cfg []) (rr 40) in
   map t_outs (firstn 3 (ths s)) =
   [[Ok 0; Ok 0; Ok 0; Ok 0]; [Ok 1; Ok 1; Ok 7]; [Ok 1; Ok 1; Ok 7]] /\ crashed s = false.
 Proof. vm_compute. split; reflexivity. Qed.
+
+(* a read that starts after Close set the flag and before Close swapped the state object
+   returns ErrClosed although the current state object is still the open one *)
+Example C06_ex_close_window :
+  let s1 := run step (init [[OFirst]; [OClose]] []) [1] in
+  let s2 := run step s1 [0] in
+  g_closed (sh s1) = true /\ spec_read (sh s1) OFirst = Some (Ok 0) /\
+  map t_outs (firstn 1 (ths s2)) = [[ErrClosed]] /\
+  lin_check (init [[OFirst]; [OClose]] []) [1; 0] = true.
+Proof. vm_compute. repeat split; reflexivity. Qed.
